@@ -117,6 +117,7 @@ type vwWorld struct {
 // of sortedShards is an arbitrary forked permutation (zz_verif_enghooks.go).
 func vwNew(n int, epoch uint64) *vwWorld {
 	verifShardOrder = true
+	verifOrderPerm = nil
 	w := &vwWorld{epoch: &meta.VerifEpoch{E: epoch}, objs: map[oid.Address]*object.Object{}}
 	w.e = &StorageEngine{cfg: &cfg{log: zap.NewNop()}, mtx: new(sync.RWMutex), shards: map[string]shardWrapper{}}
 	for i := 0; i < n; i++ {
